@@ -21,8 +21,8 @@ META = {
     "property_id": "C12",
     "design_ref": "DESIGN.md §4 C12",
     "technique": "Coq proof over the reals on a scalar-polymorphic Gallina model with eigh/qr/argsort as contract-carrying oracles (Section hypotheses, instantiated by concrete oracles in Examples) + oracle-in-the-loop correspondence evaluated by vm_compute in binary64 + residual measurement of the real LAPACK paths",
-    "level_text": "PARTIAL (P). Proved in Coq, for every size, matrix, estimate, max_iterations and tolerance, on the Gallina model of matrix_eigenvectors / matrix_eigenvalue_decomposition / _compute_orthogonal_iterations over the reals, for ANY oracles eigh, qr, argsort meeting their contracts (eigh: Q^T Q = I, A = Q diag(L) Q^T, L ascending; qr: Q^T Q = I, M = Q R with R upper triangular, no sign convention; argsort: a permutation sorting ascending): the dispatch in the code's order (one-element tensor -> ones of the same shape; not 2-D / not square -> ValueError; is_diagonal -> identity; eigendecomposition config -> the oracle's Q, orthonormal, Q^T A Q = diag(L), ascending; its float64 retry protocol; QR config with all-zero estimate = the eigendecomposition path; missing estimate -> AssertionError; unknown config -> NotImplementedError) [eigvec_dispatch]; on the QR path the result is the k-th orthogonal-iteration iterate with columns permuted by the argsort of its Rayleigh quotients, k qr calls and no eigh call [qr_iter_is_permuted_iterate], 1 <= k <= max_iterations (0 if max_iterations <= 0), the loop stops at the first iteration whose relative Frobenius change is <= tolerance and k is the unique count satisfying that rule [qr_loop_bounds], the result is a column permutation of an orthonormal matrix hence orthonormal [qr_iter_orthonormal], its columns are in ascending Rayleigh quotient [qr_sorted_by_rayleigh], and an exact orthonormal eigenbasis with non-zero, strictly ascending eigenvalues is returned up to column signs for every max_iterations and tolerance [qr_fixes_eigenbasis, fully proved: upper-triangular Cholesky-type uniqueness, no _partial]; the executable stable insertion sort meets the argsort contract; the contracts are jointly satisfiable (concrete 2x2 oracles, three concrete runs); certified checker C12_checkb with soundness over the reals. NOT proved, only MEASURED on every run (coverage.measurement, labelled as measurement): that torch.linalg.eigh / qr meet their contracts in float32/float64 (n <= 64: |Q^T Q - I| <= 50 n u, |offdiag Q^T A Q| <= 20 n u |A|, order <= 20 n u |A|) and that the QR method keeps an exact eigenbasis up to signs within 12 n u (cond^iterations + |A|/gap) - note the cond^iterations: in floating point the ascending order the routine itself returns is the repelling fixed point of orthogonal iteration, rounding errors grow by cond(A) per iteration (see level_note). The model is tied to /repo by ~900 (quick) / ~5200 (thorough) recorded runs per seed: returned tensor (1e-9), exception class, every matrix handed to qr/eigh (1e-9), iteration count, argsort answer, all compared inside coqc.",
-    "level_note": "Trusted: Coq kernel + vm_compute; stdlib real-number axioms (sig_forall_dec, sig_not_dec, functional_extensionality_dep, classic); the hand-written model, exercised only on the generated cases (sizes 0..10 in the tie; value-level tie in binary64, float32/bfloat16 pairings at the level of dtype tags, control flow and exceptions with loose value tolerance); the recording wrappers around torch.linalg.eigh/qr and Tensor.argsort; the estimate is assumed to have A's shape; the offload device is not modelled. Numerical observation (not a model/code disagreement; reproduced in float32 with cond 1e3 and the DEFAULT tolerance 1e-5: max_iterations=3 turns the exact eigenbasis of a 2x2 matrix by 0.09 rad): started at an exact eigenbasis in ascending order the float routine amplifies rounding by cond(A)^iterations before the iteration re-converges; the measured clause is therefore normalised by cond^iterations and `measurement.informational` records the cond^1-normalised growth.",
+    "level_text": "PARTIAL (P). Proved in Coq, for every size, matrix, estimate, max_iterations and tolerance, on the Gallina model of matrix_eigenvectors / matrix_eigenvalue_decomposition / _compute_orthogonal_iterations over the reals, for ANY oracles eigh, qr, argsort meeting their contracts (eigh: Q^T Q = I, A = Q diag(L) Q^T, L ascending; qr: Q^T Q = I, M = Q R with R upper triangular, no sign convention; argsort: a permutation sorting ascending): the dispatch in the code's order (one-element tensor -> ones of the same shape; not 2-D / not square -> ValueError; is_diagonal -> identity; eigendecomposition config -> the oracle's Q, orthonormal, Q^T A Q = diag(L), ascending; its float64 retry protocol; QR config with all-zero estimate = the eigendecomposition path; missing estimate -> AssertionError; unknown config -> NotImplementedError) [eigvec_dispatch]; on the QR path the result is the k-th orthogonal-iteration iterate with columns permuted by the argsort of its Rayleigh quotients, k qr calls and no eigh call [qr_iter_is_permuted_iterate], 1 <= k <= max_iterations (0 if max_iterations <= 0), the loop stops at the first iteration whose relative Frobenius change is <= tolerance and k is the unique count satisfying that rule [qr_loop_bounds], the result is a column permutation of an orthonormal matrix hence orthonormal [qr_iter_orthonormal], its columns are in ascending Rayleigh quotient [qr_sorted_by_rayleigh], and an exact orthonormal eigenbasis with non-zero, strictly ascending eigenvalues is returned up to column signs for every max_iterations and tolerance [qr_fixes_eigenbasis, fully proved: upper-triangular Cholesky-type uniqueness, no _partial]; the executable stable insertion sort meets the argsort contract; the contracts are jointly satisfiable (concrete 2x2 oracles, three concrete runs); certified checker C12_checkb with soundness over the reals. NOT proved, only MEASURED on every run (coverage.measurement, labelled as measurement): that torch.linalg.eigh / qr meet their contracts in float32/float64 (n <= 64: |Q^T Q - I| <= 50 n u, |offdiag Q^T A Q| <= 20 n u |A|, order <= 20 n u |A|) and that the QR method keeps an exact eigenbasis up to signs within 12 n u (cond^iterations + |A|/gap) - note the cond^iterations: in floating point the ascending order the routine itself returns is the repelling fixed point of orthogonal iteration, rounding errors grow by cond(A) per iteration (see level_note). The model is tied to /repo by ~1500 (quick) / ~7300 (thorough) recorded runs per seed: returned tensor (1e-9), exception class, every matrix handed to qr/eigh (1e-9), iteration count, argsort answer, inputs left unmodified, all compared inside coqc; coverage.quantifier_audit counts the generated cases per input class the property names or allows (sizes 0..64, float64/32/16/bfloat16 on every dispatch path, structured matrices and estimates, max_iterations -1..50, tolerances incl. inf/NaN/negative, memory layouts, call forms, repeated calls, injected and platform oracle failures), coverage.not_exercised the classes left out and why.",
+    "level_note": "Trusted: Coq kernel + vm_compute; stdlib real-number axioms (sig_forall_dec, sig_not_dec, functional_extensionality_dep, classic); the hand-written model, exercised only on the generated cases (sizes 0..10 in the tie; value-level tie in binary64, float32/bfloat16 pairings at the level of dtype tags, control flow and exceptions with loose value tolerance); the recording wrappers around torch.linalg.eigh/qr and Tensor.argsort; the estimate is assumed to have A's shape; the offload device is not modelled. Numerical observation (not a model/code disagreement; reproduced in float32 with cond 1e3 and the DEFAULT tolerance 1e-5: max_iterations=3 turns the exact eigenbasis of a 2x2 matrix by 0.09 rad): started at an exact eigenbasis in ascending order the float routine amplifies rounding by cond(A)^iterations before the iteration re-converges; with tolerance = +inf or NaN the code makes no iteration at all (`inf > tolerance` is false) and the model mirrors that (keep_going) - the theorems are over real, hence finite, tolerances; the measured clause is therefore normalised by cond^iterations and `measurement.informational` records the cond^1-normalised growth.",
     "ready": True,
 }
 
